@@ -290,4 +290,152 @@ theorem parseNumber_facts (c : Cfg) (hS : RelClass c) (hpre : c.basePrefix = 0) 
     refine ⟨f1, f2, by rw [f3]; rfl, ?_, f5, f6, by simpa using f7⟩
     simpa using f4
 
+/-! ## digit runs -/
+
+theorem digitVal_eq_valid (x r : Nat) : Binary.digitVal x r = charToValidDigit x r := rfl
+
+theorem charToDigit_some {x r d : Nat} (h : charToDigit x r = some d) : Binary.digitVal x r = d ∧ d < r := by
+  unfold charToDigit at h
+  dsimp only at h
+  split at h
+  · rename_i hlt
+    injection h with h
+    rw [digitVal_eq_valid]
+    exact ⟨h, by rw [← h]; exact hlt⟩
+  · cases h
+
+theorem charToDigit_48 {r : Nat} (hr : 0 < r) : charToDigit 48 r = some 0 := by
+  unfold charToDigit charToValidDigit
+  split <;> simp [hr]
+
+theorem dp_cons_some {x r d : Nat} (xs : List Nat) (h : charToDigit x r = some d) :
+    digitsPrefix r (x :: xs) = d :: digitsPrefix r xs := by
+  rw [digitsPrefix]; simp only [h]
+theorem dp_cons_none {x r : Nat} (xs : List Nat) (h : charToDigit x r = none) : digitsPrefix r (x :: xs) = [] := by
+  rw [digitsPrefix]; simp only [h]
+theorem dp_nil (r : Nat) : digitsPrefix r [] = [] := by rw [digitsPrefix]
+theorem zp_cons_48 (xs : List Nat) : zerosPrefix (48 :: xs) = zerosPrefix xs + 1 := by rw [zerosPrefix]; simp
+theorem zp_cons_ne {x : Nat} (xs : List Nat) (h : x ≠ 48) : zerosPrefix (x :: xs) = 0 := by rw [zerosPrefix]; simp [h]
+theorem zp_nil : zerosPrefix [] = 0 := by rw [zerosPrefix]
+
+/-- the bytes of a digit run: their digit values are the run, they are valid digits, and re-reading them gives the
+same run -/
+theorem run_slice (r : Nat) : ∀ (l : List Nat),
+    (l.take (digitsPrefix r l).length).length = (digitsPrefix r l).length ∧
+    dv r (l.take (digitsPrefix r l).length) = digitsPrefix r l ∧
+    ValidDigits r (l.take (digitsPrefix r l).length) ∧
+    digitsPrefix r (l.take (digitsPrefix r l).length) = digitsPrefix r l
+  | [] => by simp [dp_nil, dv, ValidDigits]
+  | x :: xs => by
+    cases hx : charToDigit x r with
+    | none => rw [dp_cons_none xs hx]; simp [dv, ValidDigits, dp_nil]
+    | some d =>
+      obtain ⟨i1, i2, i3, i4⟩ := run_slice r xs
+      obtain ⟨e1, e2⟩ := charToDigit_some hx
+      rw [dp_cons_some xs hx]
+      simp only [List.length_cons, List.take_succ_cons]
+      refine ⟨by rw [i1], ?_, ?_, ?_⟩
+      · simp only [dv, List.map_cons, e1]
+        unfold dv at i2; rw [i2]
+      · intro c hc
+        rcases List.mem_cons.mp hc with h | h
+        · rw [h, e1]; exact e2
+        · exact i3 c h
+      · rw [dp_cons_some _ hx, i4]
+
+theorem digitsPrefix_lt (r : Nat) : ∀ (l : List Nat), ∀ d ∈ digitsPrefix r l, d < r
+  | [], d, h => by simp [dp_nil] at h
+  | x :: xs, d, h => by
+    cases hx : charToDigit x r with
+    | none => rw [dp_cons_none xs hx] at h; simp at h
+    | some d' =>
+      rw [dp_cons_some xs hx] at h
+      simp only [List.mem_cons] at h
+      rcases h with h | h
+      · rw [h]; exact (charToDigit_some hx).2
+      · exact digitsPrefix_lt r xs d h
+
+/-- leading `'0'` bytes are leading zero digits of the run -/
+theorem digitsPrefix_zeros {r : Nat} (hr : 0 < r) : ∀ (l : List Nat),
+    digitsPrefix r l = List.replicate (zerosPrefix l) 0 ++ digitsPrefix r (l.drop (zerosPrefix l))
+  | [] => by simp [dp_nil, zp_nil]
+  | x :: xs => by
+    by_cases hx : x = 48
+    · subst hx
+      have ih := digitsPrefix_zeros hr xs
+      rw [zp_cons_48, List.replicate_succ, List.drop_succ_cons, List.cons_append, ← ih,
+        dp_cons_some xs (charToDigit_48 hr)]
+    · rw [zp_cons_ne xs hx]; simp
+
+theorem zerosPrefix_le_run {r : Nat} (hr : 0 < r) (l : List Nat) : zerosPrefix l ≤ (digitsPrefix r l).length := by
+  rw [digitsPrefix_zeros hr l, List.length_append, List.length_replicate]; omega
+
+theorem skipZeros_eq_drop : ∀ (l : List Nat), Binary.skipZeros l = l.drop (zerosPrefix l)
+  | [] => by simp [Binary.skipZeros, zp_nil]
+  | x :: xs => by
+    unfold Binary.skipZeros
+    rw [List.dropWhile_cons]
+    by_cases hx : x = 48
+    · subst hx
+      rw [zp_cons_48]
+      simp only [decide_true, if_true, List.drop_succ_cons]
+      have := skipZeros_eq_drop xs
+      unfold Binary.skipZeros at this
+      exact this
+    · rw [zp_cons_ne xs hx]; simp [hx]
+
+theorem zerosPrefix_take : ∀ (l : List Nat) (n : Nat), zerosPrefix l ≤ n → zerosPrefix (l.take n) = zerosPrefix l
+  | [], n, _ => by simp
+  | x :: xs, n, h => by
+    by_cases hx : x = 48
+    · subst hx
+      rw [zp_cons_48] at h
+      obtain ⟨m, rfl⟩ : ∃ m, n = m + 1 := ⟨n - 1, by omega⟩
+      rw [List.take_succ_cons, zp_cons_48, zp_cons_48, zerosPrefix_take xs m (by omega)]
+    · rw [zp_cons_ne xs hx]
+      cases n with
+      | zero => simp [zp_nil]
+      | succ m => rw [List.take_succ_cons, zp_cons_ne _ hx]
+
+/-- the byte at the end of the leading zeros is not `'0'` -/
+theorem zerosPrefix_drop_self : ∀ (l : List Nat), zerosPrefix (l.drop (zerosPrefix l)) = 0
+  | [] => by simp [zp_nil]
+  | x :: xs => by
+    by_cases hx : x = 48
+    · subst hx
+      rw [zp_cons_48, List.drop_succ_cons]
+      exact zerosPrefix_drop_self xs
+    · rw [zp_cons_ne xs hx, List.drop_zero, zp_cons_ne xs hx]
+
+/-- the byte just after a digit run is not a digit -/
+theorem after_run (r : Nat) : ∀ (l : List Nat) (x : Nat),
+    (l.drop (digitsPrefix r l).length).head? = some x → charToDigit x r = none
+  | [], x, h => by simp [dp_nil] at h
+  | y :: ys, x, h => by
+    cases hy : charToDigit y r with
+    | none =>
+      rw [dp_cons_none ys hy] at h
+      simp only [List.length_nil, List.drop_zero, List.head?_cons, Option.some.injEq] at h
+      rw [← h]; exact hy
+    | some d =>
+      rw [dp_cons_some ys hy] at h
+      simp only [List.length_cons, List.drop_succ_cons] at h
+      exact after_run r ys x h
+
+/-- a byte inside a digit run is a digit -/
+theorem in_run (r : Nat) : ∀ (l : List Nat) (i : Nat) (x : Nat), i < (digitsPrefix r l).length → l[i]? = some x →
+    (charToDigit x r).isSome
+  | [], i, x, h, _ => by simp [dp_nil] at h
+  | y :: ys, i, x, h, hx => by
+    cases hy : charToDigit y r with
+    | none => rw [dp_cons_none ys hy] at h; simp at h
+    | some d =>
+      rw [dp_cons_some ys hy] at h
+      cases i with
+      | zero => simp at hx; rw [← hx, hy]; rfl
+      | succ j =>
+        simp only [List.length_cons] at h
+        simp only [List.getElem?_cons_succ] at hx
+        exact in_run r ys j x (by omega) hx
+
 end LexVerif.Props.C01Number
